@@ -105,7 +105,13 @@ func checkDataRoundTripOn(c *core.Ctx, d dataCase, mic [4]byte, base *lorawan.PH
 		bad("devaddr", "DevAddr %v != %x", mp.FHDR.DevAddr, d.Spec.DevAddr)
 	}
 	fc := mp.FHDR.FCtrl
-	if fc.ADR != d.Spec.ADR || fc.ADRACKReq != d.Spec.ADRACKReq || fc.ACK != d.Spec.ACK || fc.FPending != d.Spec.Bit4 || fc.ClassB != d.Spec.Bit4 {
+	// bit 4: the flag of the frame's direction carries it; the other flag has no meaning there (the library
+	// sets both), but it cannot be set when the bit is clear
+	dirFlag, otherFlag := fc.FPending, fc.ClassB
+	if d.Spec.Uplink() {
+		dirFlag, otherFlag = fc.ClassB, fc.FPending
+	}
+	if fc.ADR != d.Spec.ADR || fc.ADRACKReq != d.Spec.ADRACKReq || fc.ACK != d.Spec.ACK || dirFlag != d.Spec.Bit4 || (otherFlag && !d.Spec.Bit4) {
 		bad("fctrl", "FCtrl %+v != adr=%v adrackreq=%v ack=%v bit4=%v", fc, d.Spec.ADR, d.Spec.ADRACKReq, d.Spec.ACK, d.Spec.Bit4)
 	}
 	if mp.FHDR.FCnt != d.Spec.FCnt&0xffff {
